@@ -90,4 +90,22 @@ theorem firstNamed_none (name : Slice) (path : List (Nat × Symbol × Slice))
     simp only [firstNamed, this, Bool.false_eq_true, if_false]
     exact ih (fun e he => h e (List.mem_cons_of_mem _ he))
 
+/-- the decoded chain from a given start is unique -/
+theorem SysVChain.unique {t : SysVHashTable} {symtab : Table Symbol} {strtab : Slice} {i : Nat}
+    {p q : List (Nat × Symbol × Slice)} (hp : SysVChain t symtab strtab i p)
+    (hq : SysVChain t symtab strtab i q) : p = q := by
+  induction hp generalizing q with
+  | nil =>
+    cases hq with
+    | nil => rfl
+    | cons i sym w nxt rest hi _ _ _ _ => exact absurd rfl hi
+  | cons i sym w nxt rest hi hs hn hc hr ih =>
+    cases hq with
+    | nil => exact absurd rfl hi
+    | cons _ sym' w' nxt' rest' _ hs' hn' hc' hr' =>
+      rw [hs] at hs'; injection hs' with hs'; subst hs'
+      rw [hn] at hn'; injection hn' with hn'; subst hn'
+      rw [hc] at hc'; injection hc' with hc'; subst hc'
+      rw [ih hr']
+
 end Elf
